@@ -161,3 +161,166 @@ M("c09-benign-optional-nonrep", "C09", [(PRE, """        if self._get_type() == 
             return self
         return __class__(
             f"{self._quantify_conditional_group()}?""")], expect="silent")
+
+# ---------------------------------------------------------------- C11
+M("c11-compiled-arm-match", "C11", [(PRE, "if self.__compiled is None else self.__compiled.search(source))", "if self.__compiled is None else self.__compiled.match(source))")], rule="R-DUAL")
+M("c11-uncompiled-no-flags", "C11", [(PRE, "return bool(_re.fullmatch(self.__pattern, source, flags=self.__flags)", "return bool(_re.fullmatch(self.__pattern, source)")], rule="R-DUAL")
+M("c11-compile-no-flags", "C11", [(PRE, "self.__compiled = _re.compile(self.get_pattern(), flags=self.__flags)", "self.__compiled = _re.compile(self.get_pattern())")])
+M("c11-flags-drop-dotall", "C11", [(PRE, "__flags: _re.RegexFlag = _re.MULTILINE | _re.DOTALL", "__flags: _re.RegexFlag = _re.MULTILINE")], rule="R-FLAGS")
+M("c11-getmatches-wrong-iterator", "C11", [(PRE, "return list(match for match in self.iterate_matches(source, is_path))", "return list(match for match, _, _ in self.iterate_matches_and_pos(source, is_path))")], expect="silent")
+M("c11-getmatches-drops-is-path", "C11", [(PRE, "return list(match for match in self.iterate_matches(source, is_path))", "return list(match for match in self.iterate_matches(source))")], rule="R-WRAP")
+M("c11-getcaptures-swapped-args", "C11", [(PRE, "self.iterate_captures(source, include_empty, is_path))", "self.iterate_captures(source, is_path, include_empty))")], rule="R-WRAP")
+M("c11-cache-write-in-has-match", "C11", [(PRE, """        if is_path:
+            source = self.__extract_text(source)
+        return bool(_re.search(""", """        if is_path:
+            source = self.__extract_text(source)
+        self.__compiled = None
+        return bool(_re.search(""")], rule="R-CACHE")
+M("c11-discard-keeps-cache", "C11", [(PRE, """        if discard_after:
+            self.__compiled = None""", """        if not discard_after:
+            self.__compiled = None""")], rule="R-CACHE")
+M("c11-iterate-arm-inverted", "C11", [(PRE, """        return _re.finditer(self.__pattern, source, flags=self.__flags) \\
+            if self.__compiled is None else self.__compiled.finditer(source)""", """        return _re.finditer(self.__pattern, source, flags=self.__flags) \\
+            if self.__compiled is not None else self.__compiled.finditer(source)""")])
+M("c11-matches-yield-group1", "C11", [(PRE, "            yield match.group(0)\n", "            yield match.group(1)\n")], rule="R-YIELD")
+M("c11-pos-yields-group1-span", "C11", [(PRE, "yield (match.group(0), *match.span())", "yield (match.group(0), *match.span(1))")], rule="R-YIELD")
+M("c11-benign-if-statement", "C11", [(PRE, """        return bool(_re.search(self.__pattern, source, flags=self.__flags) \\
+            if self.__compiled is None else self.__compiled.search(source))""", """        if self.__compiled is not None:
+            return bool(self.__compiled.search(source))
+        return _re.search(str(self), source, self.__flags) is not None""")], expect="silent")
+M("c11-benign-list-call", "C11", [(PRE, "return list(match for match in self.iterate_matches(source, is_path))", "return list(self.iterate_matches(source=source, is_path=is_path))")], expect="silent")
+
+# ---------------------------------------------------------------- C12
+M("c12-span-counter-reintroduced", "C12", [(PRE, """            groups = dict()
+            for k, v in match.groupdict().items():
+                if include_empty or (v != ''):
+                    start, end = match.span(k)""", """            groups, counter = dict(), 0
+            for k, v in match.groupdict().items():
+                counter += 1
+                if include_empty or (v != ''):
+                    start, end = match.span(counter)""")], rule="R-GROUPID")
+M("c12-counter-incremented-after-use", "C12", [(PRE, """                counter += 1
+                if include_empty or (group != ''):
+                    start, end = match.span(counter)
+                    if relative_to_match and start > -1:
+                        start, end = start - match.start(0), end - match.start(0)
+                    groups.append((group, start, end))""", """                if include_empty or (group != ''):
+                    start, end = match.span(counter)
+                    if relative_to_match and start > -1:
+                        start, end = start - match.start(0), end - match.start(0)
+                    groups.append((group, start, end))
+                counter += 1""")], rule="R-GROUPID")
+M("c12-counter-inside-filter", "C12", [(PRE, """                counter += 1
+                if include_empty or (group != ''):
+                    start, end = match.span(counter)""", """                if include_empty or (group != ''):
+                    counter += 1
+                    start, end = match.span(counter)""")], rule="R-GROUPID")
+M("c12-filter-truthiness", "C12", [(PRE, "tuple(group for group in match.groups() if group != '')", "tuple(group for group in match.groups() if group)")], rule="R-FILTER")
+M("c12-named-filter-drops-none", "C12", [(PRE, "{k : v for k, v in match.groupdict().items() if v != ''}", "{k : v for k, v in match.groupdict().items() if v}")], rule="R-FILTER")
+M("c12-relpos-shifts-minus-one", "C12", [(PRE, """                    start, end = match.span(counter)
+                    if relative_to_match and start > -1:""", """                    start, end = match.span(counter)
+                    if relative_to_match:""")], rule="R-RELPOS")
+M("c12-relpos-end-unshifted", "C12", [(PRE, """                    start, end = match.span(k)
+                    if relative_to_match and start > -1:
+                        start, end = start - match.start(0), end - match.start(0)""", """                    start, end = match.span(k)
+                    if relative_to_match and start > -1:
+                        start, end = start - match.start(0), end""")], rule="R-RELPOS")
+M("c12-captures-use-groupdict", "C12", [(PRE, "            yield match.groups() if include_empty else \\", "            yield tuple(match.groupdict().values()) if include_empty else \\")], rule="R-SHAPE")
+M("c12-benign-enumerate", "C12", [(PRE, """            groups, counter = list(), 0
+            for group in match.groups():
+                counter += 1
+                if include_empty or (group != ''):""", """            groups = list()
+            for counter, group in enumerate(match.groups(), 1):
+                if include_empty or (group is None or len(group) > 0):""")], expect="silent")
+
+# ---------------------------------------------------------------- C13
+M("c13-index-start", "C13", [(PRE, """            split_list.append(source[index:start])
+            index = end
+        split_list.append(source[index:])
+        return split_list
+
+
+    def split_by_capture""", """            split_list.append(source[index:start])
+            index = start
+        split_list.append(source[index:])
+        return split_list
+
+
+    def split_by_capture""")], rule="R-CURSOR")
+M("c13-final-piece-dropped", "C13", [(PRE, """                split_list.append(source[index:start])
+                index = end
+        split_list.append(source[index:])""", """                split_list.append(source[index:start])
+                index = end
+        if index < len(source):
+            split_list.append(source[index:])""")], rule="R-CURSOR")
+M("c13-cursor-moves-for-none", "C13", [(PRE, """                if group is None:
+                    continue""", """                if group is None:
+                    index = end
+                    continue""")], rule="R-CURSOR")
+M("c13-capture-ignores-include-empty", "C13", [(PRE, "for groups in self.iterate_captures_and_pos(source, include_empty):", "for groups in self.iterate_captures_and_pos(source):")], rule="R-CURSOR")
+M("c13-capture-skips-falsy", "C13", [(PRE, """                if group is None:
+                    continue""", """                if not group:
+                    continue""")], rule="R-CURSOR")
+M("c13-sub-args-swapped", "C13", [(PRE, "return _re.sub(str(self), repl, source, count, flags=self.__flags)", "return _re.sub(str(self), source, repl, count, flags=self.__flags)")], rule="R-REPLACE")
+M("c13-sub-count-dropped", "C13", [(PRE, "return _re.sub(str(self), repl, source, count, flags=self.__flags)", "return _re.sub(str(self), repl, source, flags=self.__flags)")], rule="R-REPLACE")
+M("c13-sub-flags-dropped", "C13", [(PRE, "return _re.sub(str(self), repl, source, count, flags=self.__flags)", "return _re.sub(str(self), repl, source, count)")], rule="R-REPLACE")
+M("c13-count-guard-removed", "C13", [(PRE, """        if count < 0:
+            message = "Parameter \\"count\\" can't be negative."
+            raise _ex.InvalidArgumentValueException(message)
+        if is_path:""", """        if is_path:""")], rule="R-REPLACE")
+M("c13-count-guard-off-by-one", "C13", [(PRE, """        if count < 0:
+            message = "Parameter \\"count\\" can't be negative.\"""", """        if count < -1:
+            message = "Parameter \\"count\\" can't be negative.\"""")], rule="R-REPLACE")
+M("c13-benign-enumerate-temp", "C13", [(PRE, """        for _, start, end in self.iterate_matches_and_pos(source):
+            split_list.append(source[index:start])
+            index = end
+        split_list.append(source[index:])
+        return split_list
+
+
+    def split_by_capture""", """        for i, (_, start, end) in enumerate(self.iterate_matches_and_pos(source)):
+            piece = source[index:start]
+            split_list.append(piece)
+            index = end
+        split_list += [source[index:]]
+        return split_list
+
+
+    def split_by_capture""")], expect="silent")
+
+# ---------------------------------------------------------------- C14
+M("c14-prologue-removed-split", "C14", [(PRE, """        if is_path:
+            source = self.__extract_text(source)
+        split_list, index = list(), 0
+        for _, start, end in self.iterate_matches_and_pos(source):""", """        split_list, index = list(), 0
+        for _, start, end in self.iterate_matches_and_pos(source):""")], rule="R-PATHSTATE")
+M("c14-double-extraction", "C14", [(PRE, """        if is_path:
+            source = self.__extract_text(source)
+        split_list, index = list(), 0
+        for _, start, end in self.iterate_matches_and_pos(source):""", """        if is_path:
+            source = self.__extract_text(source)
+        split_list, index = list(), 0
+        for _, start, end in self.iterate_matches_and_pos(source, is_path):""")], rule="R-PATHSTATE")
+M("c14-context-slices-path", "C14", [(PRE, """        if is_path:
+            source = self.__extract_text(source)
+        for _, start, end in self.iterate_matches_and_pos(source):
+            yield source[max""", """        for _, start, end in self.iterate_matches_and_pos(source, is_path):
+            yield source[max""")], rule="R-PATHSTATE")
+M("c14-has-match-ignores-is-path", "C14", [(PRE, """        if is_path:
+            source = self.__extract_text(source)
+        return bool(_re.search(""", """        return bool(_re.search(""")], rule="R-PATHSTATE")
+M("c14-captures-drop-is-path", "C14", [(PRE, "for match in self.__iterate_match_objects(source, is_path):\n            yield match.groups() if include_empty", "for match in self.__iterate_match_objects(source, False):\n            yield match.groups() if include_empty")], rule="R-PATHSTATE")
+M("c14-reader-latin1", "C14", [(PRE, "with open(file=source, mode='r', encoding='utf-8') as f:", "with open(file=source, mode='r', encoding='latin-1') as f:")], rule="R-READER")
+M("c14-window-plus-left", "C14", [(PRE, "yield source[max(start - n_left, 0):min(end + n_right, len(source))]", "yield source[max(start + n_left, 0):min(end + n_right, len(source))]")], rule="R-WINDOW")
+M("c14-window-no-clamp", "C14", [(PRE, "yield source[max(start - n_left, 0):min(end + n_right, len(source))]", "yield source[start - n_left:min(end + n_right, len(source))]")], rule="R-WINDOW")
+M("c14-window-from-end", "C14", [(PRE, "yield source[max(start - n_left, 0):min(end + n_right, len(source))]", "yield source[max(start - n_left, 0):min(start + n_right, len(source))]")], rule="R-WINDOW")
+M("c14-nright-guard-removed", "C14", [(PRE, """        if n_right < 0:
+            message = "Parameter \\"n_right\\" can't be negative."
+            raise _ex.InvalidArgumentValueException(message)
+""", "")], rule="R-WINARGS")
+M("c14-nleft-accepts-bool", "C14", [(PRE, "if not isinstance(n_left, int) or isinstance(n_left, bool):", "if not isinstance(n_left, int):")], rule="R-WINARGS")
+M("c14-benign-no-min", "C14", [(PRE, "yield source[max(start - n_left, 0):min(end + n_right, len(source))]", "yield source[max(start - n_left, 0):end + n_right]")], expect="silent")
+M("c14-benign-helper", "C14", [(PRE, """        if is_path:
+            source = self.__extract_text(source)
+        return bool(_re.search(""", """        source = self.__extract_text(source) if is_path else source
+        return bool(_re.search(""")], expect="silent")
